@@ -201,6 +201,44 @@ func runC17(c *Ctx) {
 		c.NewHist("big-rotate").Emit(c17rec("rotate", iota(nk[0]), 0, nk[1], nil, nil))
 		c.NewHist("big-rotate").Emit(c17rec("rotate", iota(nk[0]), 0, -nk[1], nil, nil))
 	}
+	// sessions: the functions called back to back with the same length and count (and rotations
+	// in both directions and of different amounts in turn) -- each result is a function of its own
+	// arguments, whatever was computed just before
+	for i := 0; i < c.Pick(300, 6000); i++ {
+		rng := c.Rng("c17-sess", i)
+		h := c.NewHist("session")
+		ln := 2 + rng.Intn(14)
+		k := 1 + rng.Intn(ln+1)
+		fresh := func() []int {
+			vs := iota(ln)
+			rng.Shuffle(ln, func(a, b int) { vs[a], vs[b] = vs[b], vs[a] })
+			return vs
+		}
+		order := [][]string{
+			{"batches", "chunks", "batches", "chunks"},
+			{"chunks", "batches", "chunks"},
+			{"rotate", "rotate", "rotate", "rotate"},
+			{"partition", "chunks", "rotate", "batches", "partition"},
+		}[i%4]
+		for j, f := range order {
+			switch f {
+			case "rotate":
+				amt := []int{-(ln - 1), 2, -1, ln - 2}[j%4]
+				if j%2 == 1 {
+					amt = 1 + rng.Intn(ln-1)
+				}
+				h.Emit(c17rec("rotate", fresh(), []int{0, 3}[j%2], amt, nil, nil))
+			case "partition":
+				keep := make([]int, ln)
+				for x := range keep {
+					keep[x] = b2i(rng.Intn(2) == 0)
+				}
+				h.Emit(c17rec("partition", fresh(), []int{0, 2}[j%2], 0, keep, nil))
+			default:
+				h.Emit(c17rec(f, fresh(), 0, k, nil, nil))
+			}
+		}
+	}
 	n := c.Pick(3000, 100000)
 	for i := 0; i < n; i++ {
 		rng := c.Rng("c17", i)
